@@ -189,6 +189,7 @@ pub fn atoms() -> Vec<&'static str> {
         "\u{e9}", "\u{5d0}", "\u{1f600}", "\"", "<", ">", "`", "{", "}", "'", "^", "|", "[", "]", "[::1]", "[1:2::3]", "1.2.3.4",
         "0x7f.1", "localhost", "LocalHost", "ex%41mple.com", "EXAMPLE.com", "xn--4db", "user", "pass", "u:p@", "@h", "a@b@c", ":80",
         "[1:0:0:2:0:0:3:4]", "[0:0:1:0:0:1:0:0]", "[::ffff:1.2.3.4]", "1.2.3.256", "1.2.65536", "0x100.1", "1.2.3.4.", "4294967295",
+        "0x000000001", "1.2.3.0000000000004", "[1:2:3:4:5:6:7:8::]", "[1:2:3:4:5:6:1.2.3.4.5]",
         ":", "http:", "file:", "non-spec:", "HTTP:", "a:", "//h", "//h/", "//h:1/p", "//u@h", "path", "dir/", "file.txt", "?q=1", "#frag",
         "?", "#", "a=b&c=d", "\u{0}", "\u{7f}", "\u{80}", "\u{a0}", "\u{fffd}", "=", "&", "+", ";", ",", "$", "!", "*", "(", ")", "~", "_", "-",
     ]
@@ -225,6 +226,10 @@ pub fn random_url_string(rng: &mut Rng) -> String {
                     "h%41", "[1::2:3]", "256.1.1.1", "h\th", "[1:0:0:2:0:0:3:4]", "[0:0:1:0:0:1:0:0]", "[1:0:0:0:2:0:0:0]", "[0:1:0:0:1:0:0:1]",
                     "[::ffff:1.2.3.4]", "[1:2:3:4:5:6:7:8]", "[0:0:0:0:0:0:0:0]", "1.2.3.256", "1.2.65536", "1.16777216", "4294967296", "4294967295",
                     "0x100.1", "0377.1", "08", "1.2.3.4.", "1.2.3.4.5", "1..2", "0x", "1.0x1000000", "255.255.255.256", "h.0x7f", "a.b.09",
+                    // number forms with many leading zeros (value in range, text longer than any u32 literal), eight explicit
+                    // IPv6 pieces followed by '::', over-long embedded IPv4 tails
+                    "0x000000001", "0x0000000000000000c0a80001", "192.168.0.0x000000001", "1.2.3.0000000000004", "00000000000000000000377.1", "0000000000000001",
+                    "0x00000000100000000", "[1:2:3:4:5:6:7:8::]", "[1:2:3:4:5:6:7::8]", "[::1:2:3:4:5:6:7:8]", "[1:2:3:4:5:6:1.2.3.4.5]", "[::2:3:4:5:6:1.2.3.4.5]", "[1:2:3:4:5:6:7:1.2.3.4]",
                 ]));
                 if rng.chance(1, 3) {
                     s.push_str(ps(rng, &[":80", ":443", ":8080", ":", ":0", ":65535", ":65536", ":21", ":x", ":8\\", ":8/"]));
